@@ -23,6 +23,8 @@ let run_line (line : string) : unit =
       | "cproof" -> Some (redecode p_cproof e_cproof b)
       | "cstate" -> Some (redecode p_cstate e_cstate b)
       | "comparison" -> Some (redecode p_comparison e_comparison b)
+      (* B = a counted list of strings in any order; the tag field the model writes for that set *)
+      | "tagset" -> Some (match tagset_reencode b with Some v -> "ok " ^ hex_of_string (string_of_bytes v) | None -> "err")
       | _ -> None (* explored, not modelled *) in
     (match res with Some r -> Printf.printf "%s %s\n" id r | None -> Printf.printf "%s unmodelled\n" id)
   | _ -> ()
